@@ -45,6 +45,7 @@ SYMBOLS = {
     "F": (-12.0, -2.0, 0.0, 0.5),  # frost: maximum temperature below every crop's base temperature
     "Q": (2.0, 17.0, 0.0, 2.0),    # chilly: a few tenths to 2 degree days for most crops (between 0 and a raised GDD_lo)
     "G": (10.0, 22.0, 4.0, 3.0),    # exactly 16 degree days a day for Tbase 0 / Tupp >= 22 (sums that land exactly on a thermal threshold)
+    "P": (14.0, 30.0, 4.0, 8.0),     # a shower smaller than the day's evaporative demand
 }
 WORDS = {
     "normal": "NNNRNNN",
@@ -54,7 +55,7 @@ WORDS = {
     "warm": "WWWWWR",
     "showers": "NRNMNRN",
     "hot": "WWHWWDR",
-    "coolnights": "WKWWKRWKH", "scorch": "TTTWTTR", "chilly": "NQNNQQNRQ", "steady16": "G",
+    "coolnights": "WKWWKRWKH", "scorch": "TTTWTTR", "chilly": "NQNNQQNRQ", "steady16": "G", "drizzle": "DDDDDDDDP",
 }
 
 
@@ -419,6 +420,9 @@ def iwc_for(soil_spec, kind):
         return {"wc_type": "Pct", "method": "Layer", "depth_layer": layers, "value": [float(kind[3:])] * n}
     if kind == "Depth":
         return {"wc_type": "Pct", "method": "Depth", "depth_layer": [0.2, 0.6, 1.0], "value": [30.0, 70.0, 100.0]}
+    if kind == "DepthDryTop":
+        # an air-dry / wilting-point surface over a wet subsoil
+        return {"wc_type": "Pct", "method": "Depth", "depth_layer": [0.05, 0.15, 0.6], "value": [0.0, 100.0, 100.0]}
     if kind == "DepthWetTop":
         # a moist surface over a dry subsoil: the first compartments of the initial root zone straddle any irrigation threshold
         return {"wc_type": "Pct", "method": "Depth", "depth_layer": [0.05, 0.25, 0.6], "value": [100.0, 20.0, 20.0]}
